@@ -593,6 +593,9 @@ class _Ctx:
 
     def st_FunctionDef(self, s, st):
         q = f"{self.fn.qualname}.<locals>.{s.name}"
+        fi = self.prog.functions.get(q)
+        if fi is not None and fi.node is not s and f"{q}@{s.lineno}" in self.prog.functions:
+            q = f"{q}@{s.lineno}"       # the def of this branch, not its namesake in another branch
         st.env[s.name] = Sym('<func ' + q + '>')
         return [st]
 
@@ -787,9 +790,42 @@ class _Ctx:
                     outs.append(o)
                 return outs
         v = self.ev(s.value, st, stmt=s)
+        arms = self._function_arms(v) if isinstance(v, IfT) and len(s.targets) == 1 and isinstance(s.targets[0], ast.Name) else None
+        if arms:
+            outs = []
+            for base in self._after_calls(st):
+                if base.status != 'normal':
+                    outs.append(base)
+                    continue
+                for k, (c, val) in enumerate(arms):
+                    d = self.decide(base, c) if self.opts.prune else None
+                    if d is False:
+                        continue
+                    o = base.fork() if k < len(arms) - 1 else base
+                    self.emit(o, 'cond', s, formula=c, taken=True, raw=s.value)
+                    self.assert_cond(o, c)
+                    self.assign(s.targets[0], val, o, s)
+                    outs.append(o)
+            return outs
         for t in s.targets:
             self.assign(t, v, st, s)
         return self._after_calls(st)
+
+    @staticmethod
+    def _function_arms(v: Term):
+        """[(condition, value)] for a nested conditional term all of whose leaves are function objects or None."""
+        rows = []
+        neg = []
+        cur = v
+        n = 0
+        while isinstance(cur, IfT) and n < 8:
+            rows.append((f_and(*neg, cur.cond), cur.a))
+            neg.append(f_not(cur.cond))
+            cur = cur.b
+            n += 1
+        rows.append((f_and(*neg), cur))
+        ok = all((isinstance(x, Sym) and x.name.startswith('<func ')) or (isinstance(x, Const) and x.value is None) for _, x in rows)
+        return rows if ok and len(rows) >= 2 else None
 
     def st_AnnAssign(self, s, st):
         if s.value is not None:
@@ -1814,6 +1850,9 @@ class _Ctx:
                 if isinstance(u, IfT) and (isinstance(w, Const) or self.is_sentinel(w)):
                     f = f_or(f_and(u.cond, self.cmp(ast.Is(), u.a, w, st)), f_and(f_not(u.cond), self.cmp(ast.Is(), u.b, w, st)))
                     return f if isinstance(op, ast.Is) else f_not(f)
+            for u, w in ((a, b), (b, a)):
+                if isinstance(u, Sym) and u.name.startswith(('<func ', '<class ')) and isinstance(w, Const) and w.value is None:
+                    return FFalse if isinstance(op, ast.Is) else FTrue
             if self.is_sentinel(a) or self.is_sentinel(b):
                 # a private marker is identical to itself only: nothing read from a container or passed in is the marker
                 f = FConst(a == b)
@@ -1971,6 +2010,10 @@ class _Ctx:
                     # a bound method of a library object kept in a local (`write = file.write`): the same call as base.write(...)
                     tgt = CallTarget('unknown', via='', name=nm)
                     bound_recv = st.env[f.id].base
+            if bound_recv is None and bt0 and bt0[0] in ('list', 'dict', 'set') and st.env[f.id].name in MUTATORS:
+                # `add = lst.append`: a bound mutator of a container kept in a local
+                tgt = CallTarget('unknown', via='', name=st.env[f.id].name)
+                bound_recv = st.env[f.id].base
             if bound_recv is None and tgt.kind == 'ext' and tgt.ext and tgt.ext.endswith('.' + st.env[f.id].name):
                 bound_recv = st.env[f.id].base      # typed library object: io.TextIOWrapper.write through a local
         if tgt.resolved:
@@ -2029,6 +2072,23 @@ class _Ctx:
                 if its is not None:
                     fs = [self.formula(v, st) for v in its]
                     return BoolT(f_and(*fs) if b == 'all' else f_or(*fs))
+            if b == 'next' and len(e.args) == 2 and not kw and isinstance(e.args[0], ast.GeneratorExp) and len(e.args[0].generators) == 1:
+                # first match in a table written in place: next((v for k, v in TABLE if cond(k)), default)
+                g = e.args[0].generators[0]
+                src_items = self._literal_items(self.ev(g.iter, st))
+                if src_items is not None:
+                    saved = dict(st.env)
+                    rows = []
+                    for item in src_items:
+                        self.assign(g.target, item, st, e, loopvar=True)
+                        c = f_and(*[self.formula(self.ev(c_, st), st) for c_ in g.ifs])
+                        rows.append((c, self.ev(e.args[0].elt, st)))
+                    st.env.clear()
+                    st.env.update(saved)
+                    acc = args[1]
+                    for c, v in reversed(rows):
+                        acc = v if c == FTrue else (acc if c == FFalse else IfT(c, v, acc))
+                    return acc
             if b in ('all', 'any', 'tuple', 'list') and len(args) == 1 and isinstance(e.args[0], (ast.GeneratorExp, ast.ListComp)) \
                     and len(e.args[0].generators) == 1 and not e.args[0].generators[0].ifs:
                 g = e.args[0].generators[0]
@@ -2078,10 +2138,10 @@ class _Ctx:
                       via='', expr=e, result=r)
             return r
         # ---- container mutators (receiver is not a package instance defining that method)
-        if isinstance(f, ast.Attribute) and name in MUTATORS and tgt.kind in ('ext', 'unknown') and recv is not None:
+        if (isinstance(f, ast.Attribute) or bound_recv is not None) and name in MUTATORS and tgt.kind in ('ext', 'unknown') and recv is not None:
             is_pandas_drop = name == 'drop'
             if not is_pandas_drop or any(k == 'inplace' and v == Const(True) for k, v in kw.items()):
-                ev = self.store_event(st, e, f.value, recv, name, args=tuple(args), kw=kwt, key=args[0] if args else None,
+                ev = self.store_event(st, e, f.value if isinstance(f, ast.Attribute) else f, recv, name, args=tuple(args), kw=kwt, key=args[0] if args else None,
                                       value=args[-1] if args else None)
                 self.bump(st, recv)
                 vb = self.versioned(st, recv)
